@@ -214,7 +214,7 @@ class Executor:
         s.fresh_n = 0
         s.trace_on = os.environ.get('MIRSE_TRACE') == '1'
         s.concrete_messages = False; s.dec_digits = 6; s.allow_non_ascii = False
-        s.slow_query_s = 5.0; s.cur_where = ''
+        s.slow_query_s = float(os.environ.get('MIRSE_SLOW', '5')); s.cur_where = ''
         s.merge_fns = []; s.blind = False; s.havoc_fns = []; s.memo_fns = []
         s.fork_sites = {} if os.environ.get('MIRSE_FORK_SITES') else None
         s.block_hook = None; s.drop_hook = None; s.move_hook = None
